@@ -120,6 +120,15 @@ func opParseTrace(req request) response {
 			failIdx = int(f)
 		}
 	}
+	// nil_at: reductions (by call number) at which the evaluation callback returns a nil result and no error
+	nilAt := map[int]bool{}
+	if raw, ok := req["nil_at"].([]any); ok {
+		for _, x := range raw {
+			if f, ok := x.(float64); ok {
+				nilAt[int(f)] = true
+			}
+		}
+	}
 	log := [][]any{}
 	nTok, nProd := 0, 0
 	res := response{"outcome": "ok"}
@@ -170,6 +179,9 @@ func opParseTrace(req request) response {
 			nProd++
 			if failKind == "eval" && failIdx == nProd-1 {
 				return nil, &injected{fmt.Sprintf("eval%d", failIdx)}
+			}
+			if nilAt[nProd-1] {
+				return nil, nil
 			}
 			return id, nil
 		})
